@@ -131,6 +131,17 @@ def check_iso(case, ctx):
     Ki, _ = _lin(ci, name + '.iso')
     Kg, _ = _lin(cg, name + '.general')
     kind = ':cone' if case['alphadeg'] else ':cyl'
+    # the recorded finding R15d sits in the rows / columns of the prescribed amplitudes (0..2); the block of the free amplitudes is
+    # compared on its own so that it stays under a strict check (only for iso_clpt_donnell_bc2 cones does the finding reach into it)
+    fr = np.arange(3, Ki.shape[0])
+    sc0 = np.max(np.abs(Kg))
+    try:
+        ctx.close('iso==general.k0[free,free]', Ki[np.ix_(fr, fr)], Kg[np.ix_(fr, fr)], 1e-9, bucket=name + '.k0.free', scale=sc0)
+    except Violation as v:
+        if model == 'iso_clpt_donnell_bc2' and case['alphadeg']:
+            ctx.known(R15['iso'] + ':' + model + kind + ':k0', v.bucket, v.msg)
+        else:
+            raise
     try:
         ctx.close('iso==general.k0', Ki, Kg, 1e-9, bucket=name + '.k0')
     except Violation as v:
@@ -316,6 +327,9 @@ def _cone0_strategy(draw, tier='quick'):
 def _iso_strategy(draw, tier='quick'):
     case = draw(shell_case(models=['iso_clpt_donnell_bc2', 'iso_clpt_donnell_bc3']))
     _loads(draw, case)
+    if draw(st.booleans()):     # individually chosen elastic edge restraints
+        for k in ('kuBot', 'kuTop', 'kvBot', 'kvTop', 'kphixBot', 'kphixTop'):
+            case[k] = draw(st.one_of(st.just(0.), gen.logfl(1., 1e8)))
     return case
 
 
